@@ -89,7 +89,7 @@ static Out guarded(F&& f)
 }
 
 // ---- world --------------------------------------------------------------------------------------
-static sbx_t *g_sb, *g_other;
+static sbx_t* g_sb;
 static uintptr_t g_base, g_obase;
 static uint8_t *g_mem, *g_omem;
 static uint8_t* g_arena; // 64 KiB, 64 KiB aligned, PROT_NONE pages on both sides
@@ -269,8 +269,10 @@ static std::vector<AStart> astarts()
            { "arena-mid", (uintptr_t)g_arena + 0x3000 },
            { "arena-end-16", (uintptr_t)g_arena + kSize - 16 },
            { "arena-end-1", (uintptr_t)g_arena + kSize - 1 },
+#ifndef C10_SINGLE
            { "other-sandbox", g_obase + 0x100 },
            { "other-sandbox-end", g_obase + kSize - 8 },
+#endif
            { "same-sandbox", g_base + 0x2000 },
            { "before-sandbox", g_base - 8 },
            { "before-arena-guard", (uintptr_t)g_arena - 4 } };
@@ -280,7 +282,9 @@ static std::vector<AStart> astarts_all()
   auto v = astarts();
   if (g_thorough) {
     for (uintptr_t k : { 2, 3, 4, 7, 8, 9, 15, 17 }) v.push_back({ "arena-end-k", (uintptr_t)g_arena + kSize - k });
+#ifndef C10_SINGLE
     v.push_back({ "other-sandbox-last", g_obase + kSize - 1 });
+#endif
     v.push_back({ "same-sandbox-last", g_base + kSize - 4 });
     v.push_back({ "after-sandbox", g_base + kSize });
     v.push_back({ "before-sandbox-1", g_base - 1 });
@@ -772,11 +776,18 @@ int main(int argc, char** argv)
   sa.sa_flags = SA_SIGINFO | SA_NODEFER;
   sigaction(SIGSEGV, &sa, nullptr);
   sigaction(SIGBUS, &sa, nullptr);
+#ifdef C10_SINGLE
+  // exactly ONE live sandbox of the type under test: the neighbouring region belongs to a sandbox of another TYPE (its own
+  // process-wide list), so shortcuts for "the only sandbox" in the example-based finder are reachable
+  using CfgO = mb::cfg<uint16_t, mb::abi_lp32, mb::C10_MODE, 3>;
+  rlbox::rlbox_sandbox<mb::mbox<CfgO>> other;
+  sbx_t sb;
+#else
   sbx_t sb, other;
+#endif
   sb.create_sandbox(0);
   other.create_sandbox(1);
   g_sb = &sb;
-  g_other = &other;
   g_base = sb.get_sandbox_impl()->base;
   g_obase = other.get_sandbox_impl()->base;
   g_mem = sb.get_sandbox_impl()->mem();
